@@ -9,6 +9,7 @@ PROP = 'C17'
 KIND = 'C17'
 TARGETS = ['theories/Proofs/EncodingProofs.v', 'theories/Run/RunC17.v']
 RULE = ('generated documents (non-ASCII, non-BMP strings and comments) x 10 encodings x padded to every length residue mod 4; '
+        'long files with a non-BMP character at and around every power-of-two byte offset 1 KiB..64 KiB (128 KiB thorough) in each encoding; '
         'random byte strings (uniform, zero-heavy, BOM-prefixed, truncated encodings) for totality and the Latin-1 fallback; '
         'non-trivial = non-UTF-8 encoding or invalid bytes; distinct = distinct byte string')
 ASSUMPTIONS = ['texts contain no NUL character (hypothesis of C17_decode_encode, forced by the UTF-32 heuristic)',
@@ -38,6 +39,22 @@ def gen_cases(rng, tier):
     for t in ['A', 'AB', 'Aé', 'AB\U0001F600', 'ASAP2_VERSION 1 71', 'A€€€']:
         for enc in ENCS:
             cases.append([encode(t, enc), t.encode('utf-8'), 1])
+    # long files: a multi-byte / non-BMP character placed at and around every power-of-two byte offset that a block-wise
+    # reader could use as a buffer size (a split surrogate pair or UTF-8 sequence must not change the result)
+    base = 'ASAP2_VERSION 1 71 /begin PROJECT p "" /begin MODULE m "" /end MODULE /end PROJECT'
+    bounds = [1024, 4096, 8192, 16384, 65536] if tier == 'quick' else [512, 1024, 2048, 4096, 8192, 16384, 32768, 65536, 131072]
+    offs = [-2, -1, 0, 1] if tier == 'quick' else [-4, -3, -2, -1, 0, 1, 2, 3]
+    for enc in ENCS:
+        head = len(encode(base + ' /*', enc))
+        unit = len(encode('xx', enc)) - len(encode('x', enc))
+        for bnd in bounds:
+            for off in offs:
+                want = bnd + off - head
+                if want < 0:
+                    continue
+                n = want // unit
+                t = base + ' /*' + 'x' * n + '\U0001F600\u20ac\U0001F600' + 'y' * 7 + '*/'
+                cases.append([encode(t, enc), t.encode('utf-8'), 1])
     # totality / fallback: arbitrary bytes
     nrand = 1500 if tier == 'quick' else 100000
     for i in range(nrand):
